@@ -1,6 +1,7 @@
 (* C06 - a read depends only on bytes and arguments, never on earlier reads or callers; results share no
    mutable state.  Only statements, closed by [exact], each followed by Print Assumptions. *)
 From Coq Require Import ZArith NArith List Bool.
+Require Import Tree Graph C06_Graph C06_GraphRun C06_GraphProofs.
 Require Import ListN Result Bytes Prog Codec PoseRead PoseReadLemmas StreamLemmas C06_Heap C06_HeapProofs CodecGenTie.
 Import ListNotations.
 Open Scope N_scope.
@@ -59,6 +60,77 @@ Theorem C06_invariant_reachable :
   forall legacy ops, HInv (run_h legacy hinit ops).
 Proof. exact (fun legacy ops => hinv_run legacy ops hinit hinv_init). Qed.
 Print Assumptions C06_invariant_reachable.
+
+(* Object-graph level (model/C06_Graph.v): EVERY mutable object of a pose is a cell of the heap - the Pose, its header, the
+   dimensions object, the list of components, each component, its points / limbs / colours lists, the body, and the data, mask
+   and confidence buffers.  [cells_of s k] are the cells the k-th pose handed out is made of, [memo_cells s] those of the
+   memoised header, [pose_at s k] what a caller reads through the k-th pose.
+   After ANY history of reads, in-place edits (of any cell reachable from any pose handed out) and copies:
+   a read returns a new Pose object holding exactly the pose a fresh process reads; *)
+Theorem C06_graph_history_independent :
+  forall legacy ops buffer a,
+    let s := run_g legacy ginit ops in
+    let r := read_g legacy s buffer a in
+    match fst (read_bytes legacy None buffer a) with
+    | Ok p => exists ap, fst r = Ok ap /\ pose_at (snd r) (length (ghanded s)) = Some p
+    | Err e => fst r = Err e
+    end.
+Proof. exact history_independent_g. Qed.
+Print Assumptions C06_graph_history_independent.
+(* no cell belongs to two poses handed out (by reads or by copy()), nor to a pose and the memo; *)
+Theorem C06_graph_no_sharing :
+  forall legacy ops, let s := run_g legacy ginit ops in
+    (forall i j x, i <> j -> In x (cells_of s i) -> ~ In x (cells_of s j)) /\
+    (forall j x, In x (memo_cells s) -> ~ In x (cells_of s j)).
+Proof. exact reachable_no_sharing. Qed.
+Print Assumptions C06_graph_no_sharing.
+(* an in-place edit through one pose leaves every other pose handed out - value and cells - and what the memo holds untouched,
+   and does not change which cells the edited pose is made of; *)
+Theorem C06_graph_edit_is_local :
+  forall legacy s k path g, GInv s ->
+    let s' := fst (step_g legacy s (GEdit k path g)) in
+    (forall j, j <> k -> pose_at s' j = pose_at s j /\ cells_of s' j = cells_of s j) /\
+    memo_view_g s' = memo_view_g s /\ memo_cells s' = memo_cells s /\ cells_of s' k = cells_of s k.
+Proof. exact edit_is_local. Qed.
+Print Assumptions C06_graph_edit_is_local.
+(* a read leaves every pose handed out before as it was; *)
+Theorem C06_graph_read_keeps_others :
+  forall legacy s buffer a, GInv s -> forall j, (j < length (ghanded s))%nat ->
+    pose_at (snd (read_g legacy s buffer a)) j = pose_at s j /\ cells_of (snd (read_g legacy s buffer a)) j = cells_of s j.
+Proof. exact read_g_keeps_others. Qed.
+Print Assumptions C06_graph_read_keeps_others.
+(* copy() hands out a new Pose object with the source's header, values and confidences and the mask re-derived as the body
+   constructor does - equal to the source whenever the source marks its zero-confidence points missing
+   (C06_graph_copy_consistent) - its cells disjoint from its source's by C06_graph_no_sharing, and leaves every other pose as it was; *)
+Theorem C06_graph_copy_is_equal :
+  forall legacy s k root, GInv s -> nth_error (ghanded s) k = Some root ->
+    let s' := fst (step_g legacy s (GCopy k)) in
+    ghanded s' = ghanded s ++ [length (gheap s') - 1]%nat /\ pose_at s' (length (ghanded s)) = option_map copy_pose (pose_at s k) /\
+    (forall j, (j < length (ghanded s))%nat -> pose_at s' j = pose_at s j /\ cells_of s' j = cells_of s j).
+Proof. exact copy_is_equal. Qed.
+Print Assumptions C06_graph_copy_is_equal.
+Theorem C06_graph_copy_consistent :
+  forall p, or_maskb (b_mask (p_body p)) (b_conf (p_body p)) = b_mask (p_body p) -> copy_pose p = p.
+Proof. exact copy_pose_consistent. Qed.
+Print Assumptions C06_graph_copy_consistent.
+(* the invariant behind them holds in every reachable state, and the extracted runner threads exactly these states. *)
+Theorem C06_graph_invariant_reachable : forall legacy ops, GInv (run_g legacy ginit ops).
+Proof. exact (fun legacy ops => ginv_run legacy ops ginit ginv_init). Qed.
+Print Assumptions C06_graph_invariant_reachable.
+Theorem C06_graph_runner_states : forall legacy ops s, snd (run_flags legacy s ops) = run_g legacy s ops.
+Proof. exact run_flags_state. Qed.
+Print Assumptions C06_graph_runner_states.
+Theorem C06_graph_example :
+  let s := run_g no_legacy ginit ex_ghistory in
+  length (ghanded s) = 3%nat /\
+  option_map (fun p => h_dims (p_header p)) (pose_at s 0) = Some (1, 2, 3) /\
+  option_map (fun p => h_dims (p_header p)) (pose_at s 1) = Some (1, 2, 3) /\
+  pose_at s 2 = match fst (read_bytes no_legacy None ex_file no_args) with Ok p => Some p | Err _ => None end /\
+  pose_at s 2 <> None /\ pose_at s 2 <> pose_at s 0 /\
+  (length (cells_of s 0) = length (cells_of s 1) /\ length (cells_of s 1) = length (cells_of s 2) /\ (10 <= length (cells_of s 2))%nat) /\
+  NoDup (memo_cells s ++ cells_of s 0 ++ cells_of s 1 ++ cells_of s 2).
+Proof. exact ex_ghistory_runs. Qed.
+Print Assumptions C06_graph_example.
 
 (* streams (partial: the windowed clause covers reads whose bytes result is Ok and v0.2 bodies) *)
 Theorem C06_stream_windowed_partial :
